@@ -2,6 +2,7 @@ package rules
 
 import (
 	"go/token"
+	"go/types"
 	"strings"
 
 	"golang.org/x/tools/go/ssa"
@@ -154,3 +155,136 @@ func c20SearchInLoop(c *Ctx, p *core.Prog) {
 }
 
 var _ = token.ADD
+
+// accumulator-scan: inside a loop that appends to a slice on every iteration, another loop walks the whole
+// slice collected so far (duplicate checks, "seen" lists): k items cost k²/2 steps.
+func c20AccumulatorScan(c *Ctx, p *core.Prog) {
+	r := c.R
+	r.Rule("accumulator-scan", "a loop that grows a slice by append on each iteration does not also walk that slice (range / index loop bounded by its length) inside the same iteration: use a map for membership tests")
+	n, loops := 0, 0
+	for _, fn := range p.SrcFuncs("pkg/sql/tokenizer", "pkg/sql/parser", "pkg/sql/ast", "pkg/sql/security", "pkg/formatter", "pkg/gosqlx", "pkg/linter", "pkg/lsp") {
+		sccs := blockSCCs(fn, nil, nil, nil)
+		seq := 0
+		for _, scc := range sccs {
+			in := blockSet(scc)
+			// accumulators: slice phis of this loop fed back by append(phi, …)
+			var accs []*ssa.Phi
+			for _, b := range scc {
+				for _, ins := range b.Instrs {
+					ph, ok := ins.(*ssa.Phi)
+					if !ok {
+						continue
+					}
+					if _, isSlice := ph.Type().Underlying().(*types.Slice); !isSlice {
+						continue
+					}
+					for i, ed := range ph.Edges {
+						if !in[ph.Block().Preds[i]] {
+							continue
+						}
+						if feedsFromAppend(ed, ph, 0, map[ssa.Value]bool{}) {
+							accs = append(accs, ph)
+							break
+						}
+					}
+				}
+			}
+			if len(accs) == 0 {
+				continue
+			}
+			loops++
+			for _, acc := range accs {
+				// inner loops: cycles inside this loop that do not pass the accumulator's header block
+				inner := blockSCCs(fn, func(b *ssa.BasicBlock) bool { return b == acc.Block() }, nil, in)
+				for _, isc := range inner {
+					for _, ib := range isc {
+						iff, ok := ib.Instrs[len(ib.Instrs)-1].(*ssa.If)
+						if !ok {
+							continue
+						}
+						iin := blockSet(isc)
+						for _, bo := range condConjuncts(iff.Cond, 0) {
+							for si, side := range []ssa.Value{bo.X, bo.Y} {
+								arg := core.LenOf(side)
+								if arg == nil {
+									continue
+								}
+								// the other side must be the inner loop's own induction variable (i < len(acc))
+								other := bo.Y
+								if si == 1 {
+									other = bo.X
+								}
+								if add, ok := other.(*ssa.BinOp); ok && add.Op == token.ADD {
+									other = add.X // range loops test i+1 < len
+								}
+								iv, isPhi := other.(*ssa.Phi)
+								if !isPhi || !iin[iv.Block()] {
+									continue
+								}
+								if derivesFromSlice(arg, acc, 0) {
+									seq++
+									n++
+									pos := iff.Cond.Pos()
+									for _, xb := range isc {
+										for _, xi := range xb.Instrs {
+											if !pos.IsValid() && xi.Pos().IsValid() {
+												pos = xi.Pos()
+											}
+										}
+									}
+									r.Violate("accumulator-scan", core.FnName(fn)+sprintf("|scan#%d", seq), p.Pos(pos), "this inner loop walks the slice that the enclosing loop extends by append on every iteration: total work grows with the square of the number of items")
+								}
+							}
+						}
+					}
+				}
+			}
+		}
+	}
+	r.OK("accumulator-scan", "scan", "-", sprintf("%d appending loops examined, %d re-scans of the accumulated slice", loops, n))
+	r.Floor("accumulator-scan", loops, 20, "loops that append to a loop-carried slice")
+}
+
+func feedsFromAppend(v ssa.Value, ph *ssa.Phi, depth int, seen map[ssa.Value]bool) bool {
+	if depth > 6 || seen[v] {
+		return false
+	}
+	seen[v] = true
+	switch x := v.(type) {
+	case *ssa.Call:
+		if core.IsBuiltinCall(&x.Call, "append") && len(x.Call.Args) > 0 {
+			return derivesFromSlice(x.Call.Args[0], ph, 0)
+		}
+	case *ssa.Phi:
+		for _, e := range x.Edges {
+			if feedsFromAppend(e, ph, depth+1, seen) {
+				return true
+			}
+		}
+	}
+	return false
+}
+
+func derivesFromSlice(v ssa.Value, ph *ssa.Phi, depth int) bool {
+	if v == ssa.Value(ph) {
+		return true
+	}
+	if depth > 6 {
+		return false
+	}
+	switch x := v.(type) {
+	case *ssa.Slice:
+		return derivesFromSlice(x.X, ph, depth+1)
+	case *ssa.Phi:
+		for _, e := range x.Edges {
+			if e != ssa.Value(x) && derivesFromSlice(e, ph, depth+1) {
+				return true
+			}
+		}
+	case *ssa.Call:
+		if core.IsBuiltinCall(&x.Call, "append") && len(x.Call.Args) > 0 {
+			return derivesFromSlice(x.Call.Args[0], ph, depth+1)
+		}
+	}
+	return false
+}
